@@ -560,9 +560,10 @@ class DictNode(MappingNode, MultiSetNode[KeyValuePairNode]):
         return cls(kvps)
 
     def edits(self, node: TreeNode) -> Edit:
-        if isinstance(node, MultiSetNode):
+        if isinstance(node, DictNode):
             return super().edits(node)
         else:
+            # any other node, including a plain multiset whose elements are not key/value pairs
             return Replace(self, node)
 
     def __iter__(self) -> Iterator[KeyValuePairNode]:
